@@ -214,7 +214,7 @@ def run(ctx):
     rng = ctx.rng
     runs = [(c, execute(c)) for c in corpus_cases()]
     explore(ctx, runs, "corpus: ")
-    n = 4000 if ctx.thorough() else 500
+    n = 40000 if ctx.thorough() else 3000
     batch = []
     for i in range(n):
         case = gen_case(rng)
